@@ -36,21 +36,41 @@ def to_fp(x):
     return None
 
 
+F32 = z3.Float32()
+
+
+def _weak(o):
+    """Operands numpy treats as weakly typed next to a float32 scalar (NEP 50): Python ints and floats."""
+    return isinstance(o, (int, float)) and not isinstance(o, bool)
+
+
 class SymFloat:
-    __slots__ = ('t',)
+    """f32: the value is a numpy float32 (held, exactly, in a Float64 term); arithmetic with another float32 or with a
+    Python scalar is then carried out in binary32, as numpy 2 does."""
+    __slots__ = ('t', 'f32')
     isfloat = True
 
-    def __init__(self, t):
+    def __init__(self, t, f32=False):
         self.t = t
+        self.f32 = f32
+
+    def to_f32(self):
+        return SymFloat(z3.fpFPToFP(RNE, z3.fpFPToFP(RNE, self.t, F32), F64), True)
 
     def _bin(self, o, f, swap=False):
         b = to_fp(o)
         if b is None:
             return NotImplemented
         a = self.t
+        single = self.f32 and (_weak(o) or (isinstance(o, SymFloat) and o.f32))
+        if single:
+            a, b = z3.fpFPToFP(RNE, a, F32), z3.fpFPToFP(RNE, b, F32)
         if swap:
             a, b = b, a
-        return SymFloat(f(a, b))
+        r = f(a, b)
+        if single:
+            return SymFloat(z3.fpFPToFP(RNE, r, F64), True)
+        return SymFloat(r)
 
     def __add__(self, o):
         return self._bin(o, lambda a, b: z3.fpAdd(RNE, a, b))
@@ -77,10 +97,10 @@ class SymFloat:
         return self._bin(o, lambda a, b: z3.fpDiv(RNE, a, b), True)
 
     def __neg__(self):
-        return SymFloat(z3.fpNeg(self.t))
+        return SymFloat(z3.fpNeg(self.t), self.f32)
 
     def __abs__(self):
-        return SymFloat(z3.fpAbs(self.t))
+        return SymFloat(z3.fpAbs(self.t), self.f32)
 
     def _cmp(self, o, f):
         b = to_fp(o)
@@ -128,7 +148,7 @@ class SymFloat:
 
     def rint(self):
         """numpy.rint / numpy.round(x) with no decimals: round half to even, still a float."""
-        return SymFloat(z3.fpRoundToIntegral(RNE, self.t))
+        return SymFloat(z3.fpRoundToIntegral(RNE, self.t), self.f32)
 
     def round(self, decimals=0, out=None):
         if decimals != 0:
@@ -156,6 +176,10 @@ class SymFloat:
         name = getattr(t, '__name__', str(t))
         if t is int or 'int' in name:
             return self.trunc_int()
+        if 'float32' in name or name in ('f4', '<f4'):
+            return self.to_f32()
+        if self.f32:
+            return SymFloat(self.t)
         return self
 
     def sym_int(self):
